@@ -56,4 +56,16 @@ PROPS = {
                 "Non-trivial: names whose last (or last-before-_test) segment is a known OS/arch; contents with >=1 counted +build line that has >=2 options, a comma term or a negation. Distinct by (name|content, tags).",
         "assumptions": ["'known' OS/arch = the package's exported KnownOS/KnownArch tables", "MatchFile with tags['*'] accepts every name (the 'ignore' exclusion applies to content only)"],
     },
+    "C18": {
+        "pkg": "c18_imports",
+        "level": "exploration",
+        "technique": "grammar-based rapid generation of valid Go files + mutated/arbitrary bytes + native fuzzing; differential oracle go/parser (full file and returned prefix) and a metamorphic relation between the strict and lenient modes",
+        "level_text": "Grammar-generated valid Go files (BOM, comments of every shape in every gap, semicolons, grouped/named/dot/blank imports, raw and escaped path strings, trailing declarations that mention imports) are compared with go/parser on the whole file and on the returned prefix; mutated and arbitrary inputs check totality, the prefix property and the strict/lenient relation.",
+        "level_note": "Trusted: go/parser of the Go 1.23 toolchain as the definition of 'syntactically valid' and of the import list; generated files that go/parser rejects are skipped and counted.",
+        "shards": {"quick": 1, "thorough": 16},
+        "fuzz": [{"name": "FuzzReadImports", "seconds": 90}],
+        "rule": "valid files: [BOM] gaps 'package' ident terminator, 0-4 import declarations (single or grouped, 0-3 specs, alias none/_/./identifier incl. non-ASCII, path as interpreted string with \\x \\u \\U octal escapes or raw string), 0-2 trailing declarations; gaps drawn from blanks, newlines, CRLF, line comments and block comments (incl. /*/ x */, /***/, comments containing import text or newlines); terminators ';', newline, comment. arbitrary: random bytes or generated files after 0-3 mutations (truncate, NUL, byte flip, insert quote/comment opener/paren, delete, prepend BOM); every truncation of four seed files. "
+                "Non-trivial: valid file with >=1 import and >=1 comment or semicolon inside the import section; arbitrary input on which strict mode errs or reports an import. Distinct by source bytes.",
+        "assumptions": ["in lenient mode a non-syntax read error (NUL byte) may still be reported, with the data read so far"],
+    },
 }
